@@ -3,7 +3,15 @@ from contracts import fidelity as F
 
 
 def units(tier):
-    return [Unit(F.MasteredUDF, {'script': s}) for s in sorted(F.UDF_SCRIPTS)]
+    from contracts import udf_fid as UF
+    us = [Unit(F.MasteredUDF, {'script': s}) for s in sorted(F.UDF_SCRIPTS)]
+    for n in (0, 1, 5, 64, 254) if tier == 'quick' else range(0, 255):
+        us.append(Unit(UF.FidPlacementStep, {'namelen': n}))
+        us.append(Unit(UF.FIDLength, {'namelen': n}))
+    us.append(Unit(UF.FileEntryNew))
+    for n in (1, 5, 254, 255):
+        us.append(Unit(UF.FIDNew, {'namelen': n}))
+    return us
 
 
 META = {}
@@ -14,17 +22,17 @@ META = {
     'assumptions': [
         'B (bounded scenarios): five edit scripts (files/dirs incl. an empty file and nested directories, Latin-1 and UTF-16 names, removals followed by a file that crosses a block boundary, 45 long names in one directory = multi-block directory, relative and absolute symlinks); file CONTENTS are symbolic',
         'decoding by an independent ECMA-167 reader (contracts/udf_reader.py): starts from the recognition sequence and the anchors at sector 256 and the last sector, checks every tag (identifier, checksum, CRC-16, location); the reader is trusted',
-        'function-level: udf.UDFTimestamp, crc? (see out_of_reach), UDFFileIdentifierDescriptor.new / add_file_ident_desc (C13 units)',
+        'function-level (proved, all inputs): the placement step of file identifier descriptors in _udf_assign_extents (tag location = block of the first byte, for every offset and name length), UDFFileEntry.new allocation descriptors for every 32-bit length, UDFFileIdentifierDescriptor.length / new; UDFTimestamp is C19\'s',
     ],
     'out_of_reach': [
-        'crc_ccitt / UDFTag.record / the ~45 descriptor classes are not under function-level contracts yet (their effect is checked through the independent reader on the scripts only)',
-        'totals over histories (file and directory counts in the integrity descriptor), files larger than 1 GiB (several allocation descriptors)',
+        'crc_ccitt / UDFTag.record and the remaining descriptor classes are not under function-level contracts (their effect is checked through the independent reader on the scripts only)',
+        'totals over histories (file and directory counts in the integrity descriptor); files larger than 1 GiB are covered at function level only (FileEntryNew), not end to end',
     ],
-    'bounded': ['5 edit scripts'],
+    'bounded': ['5 edit scripts', 'FidPlacementStep name lengths (quick: 5 values; thorough: 0..254)'],
 }
 
 MANIFEST = {
-    'level_text': 'Bounded scenarios executed by the verifier on the real code with SYMBOLIC file contents: for five UDF edit scripts an independent ECMA-167/UDF reader (no pycdlib code) starting only from the recognition sequence and the two anchors reaches the file set and recovers exactly the implied tree, names (Latin-1 and UTF-16), symlink targets and file bytes; every descriptor tag (identifier, checksum, CRC, location), information length and allocation descriptor is valid; UDF objects are disjoint and inside the partition; UDF and ISO9660 names share their data sectors.',
-    'level_note': 'Scenario-level only (bounded scripts), symbolic in all file contents. Trusted: pyvc executing the real mastering code (cross-checked byte-identical with CPython), the independent reader. Function-level contracts for the UDF descriptor classes are not built yet.',
+    'level_text': 'Bounded scenarios executed by the verifier on the real code with SYMBOLIC file contents: for five UDF edit scripts an independent ECMA-167/UDF reader (no pycdlib code) starting only from the recognition sequence and the two anchors reaches the file set and recovers exactly the implied tree, names (Latin-1 and UTF-16), symlink targets and file bytes; every descriptor tag (identifier, checksum, CRC, location), information length and allocation descriptor is valid; UDF objects are disjoint and inside the partition; UDF and ISO9660 names share their data sectors. Deductive, for all inputs: the descriptor placement step of _udf_assign_extents (tag location is the block holding the first byte, whatever the offset and name length), the allocation descriptors of UDFFileEntry.new for every 32-bit length (non-empty, full but the last, summing to the length), descriptor lengths and name limits.',
+    'level_note': 'Scenario-level only (bounded scripts), symbolic in all file contents. Trusted: pyvc executing the real mastering code (cross-checked byte-identical with CPython), the independent reader. Function-level contracts exist for placement, allocation descriptors and identifier descriptors; the other descriptor classes are checked through the reader only.',
     'design_ref': 'DESIGN.md section 4 C10',
 }
